@@ -111,9 +111,12 @@ def build_fault_corpus(tier):
                  W=2, N=2, scale=1.0, beta=1e6, beta_form="float", lam=0.11)
         extra.append(c)
     for i, how in enumerate(["list_to_single", "tuple_to_single", "generator_to_single", "array_to_joint",
-                             "vector_to_joint"]):
+                             "vector_to_joint", "wide_array_to_joint", "wide_array_to_joint"]):
         c = runs.gen_config(rng, 3000 + i, tier)
         c.update(fe="joint" if "single" in how else "single", swap=how, eps=0, scale=1.0)
+        c["hang_limit_s"] = 300
+        if how == "wide_array_to_joint":
+            c.update(N=6 + i, W=2 + i % 2, K=2, limit=2)          # more columns than the window is long
         if "single" in how:
             c["lens"] = [50, 44]
         extra.append(c)
